@@ -101,9 +101,31 @@ def run_shard(ctx):
       ctx.nontriv([case["design"], case["seq"]])
     ctx.judge(case, v)
   ctx.run(t, "c12b")
+  if ctx.violations: return
+  from vf.props import c13
+
+  @seed(ctx.hseed(2))
+  @ctx.settings(ctx.n(320, 6000))
+  @given(c13.default_arg_cases())
+  def tp(case):
+    if ctx.out_of_time(): return
+    ctx.count()
+    ctx.label("parametrised_component_family")
+    case = dict(case); case["family"] = "param"
+    v = judge_param(case)
+    if v is None and len({tuple(k[2:]) for k in case["insts"]}) >= 2: ctx.nontriv(["param", case["insts"], case.get("set_param")])
+    ctx.judge(case, v)
+  ctx.run(tp, "c12p")
+
+
+def judge_param(case):
+  from vf.props import c13
+  v = c13.judge_b(case, backends=("yosys",))
+  return None if v is None else ("param:" + v[0], v[1])
 
 
 def replay(case):
+  if case.get("family") == "param": return judge_param(case)
   return judge(case)
 
 
